@@ -69,9 +69,27 @@ def type_of_specifier(ts):
 
 def type_of_specifier_list(items):
     """`unsigned int` (the only multi-word type name the transformer accepts) and `const T`"""
+    flat = []
+    for x in items:      # `unsigned long long` nests: specifiers(unsigned, specifiers(long, long))
+        flat += list(x.children) if is_tree(x) and x.data in ("declaration_specifiers", "specifier_qualifier_list") else [x]
+    items = flat
+    raw = tuple((tok(x.children[0]) if len(x.children) == 1 and not is_tree(x.children[0]) else None) if is_tree(x) else tok(x) for x in items)
+    std0 = {("unsigned", "long", "long"): (False, 64), ("long", "long"): (True, 64), ("signed", "long", "long"): (True, 64),
+            ("unsigned", "long", "long", "int"): (False, 64), ("long", "long", "int"): (True, 64),
+            ("unsigned", "char"): (False, 8), ("signed", "char"): (True, 8), ("unsigned", "short"): (False, 16), ("signed", "int"): (True, 32)}
+    if raw in std0:   # spellings whose width is the same under every C data model (a bare `long` is not: left unmodelled)
+        return " ".join(raw), std0[raw]
     sp = [type_of_specifier(x) if is_tree(x) else (tok(x), None) for x in items]
     if len(sp) == 2 and sp[0][0] == "unsigned" and sp[1][0] == "int":
         return "unsigned int", (False, 32)
+    # multi-word spellings whose width is the same under every C data model (a bare `long` is not: 32 bit on Hexagon's own
+    # ILP32, 64 bit on the LP64 hosts QEMU's helpers are compiled for - left unmodelled)
+    words = tuple(x[0] for x in sp)
+    std = {("unsigned", "long", "long"): (False, 64), ("long", "long"): (True, 64), ("signed", "long", "long"): (True, 64),
+           ("unsigned", "long", "long", "int"): (False, 64), ("long", "long", "int"): (True, 64),
+           ("unsigned", "char"): (False, 8), ("signed", "char"): (True, 8), ("unsigned", "short"): (False, 16), ("signed", "int"): (True, 32)}
+    if words in std:
+        return " ".join(words), std[words]
     if len(sp) == 2 and sp[0] == ("const", None) and sp[1][1] is not None:
         return "const " + sp[1][0], sp[1][1]
     raise Unmodelled("composite type specifier")
